@@ -1235,9 +1235,21 @@ def rule_prune_fixpoint(A, R, rule):
     C = A.classes()
     cleanup_kinds = set(A.kind_of(s) for s in C["CleanupOffered"])
     prune_fns = set()
+    prune_pos = {}
     for st in A.startup_runs():
         for v in st.by_kind("dag_remove_node"):
-            prune_fns.add(v["fn"])
+            # the pruning function: the innermost activation around the removal in which it lies inside a loop (the removal
+            # itself may have been extracted into a helper)
+            chosen = None
+            for (fid_, fn_, bb_) in reversed(st.chain(v)):
+                b_ = A.facts.body(fn_)
+                if b_ is not None and fid_ is not None and any(bb_ in b_.natural_loop(h_) for (_x, h_) in b_.back_edges()):
+                    chosen = (fid_, fn_, bb_)
+                    break
+            if chosen is None:
+                chosen = (v.get("fid"), v["fn"], v["bb"])
+            prune_fns.add(chosen[1])
+            prune_pos[(id(st), v["fn"], v["bb"])] = chosen
     R.floor(rule, "startup functions that take jobs out of the graph", len(prune_fns), 1)
     hn = has_neighbour_predicates(A)
     R.info["has_neighbour_predicates"] = sorted(short(x) for x in hn)
@@ -1324,12 +1336,11 @@ def rule_prune_fixpoint(A, R, rule):
     for st in A.startup_runs()[:1]:
         rms = st.by_kind("dag_remove_node")
         for rm in rms:
-            fidr = rm.get("fid")
-            fnr = st.frames.get(fidr)
-            body = A.facts.body(fnr[0]) if fnr else None
+            fidr, fnr_, bbr = prune_pos.get((id(st), rm["fn"], rm["bb"]), (rm.get("fid"), rm["fn"], rm["bb"]))
+            body = A.facts.body(fnr_)
             if body is None:
                 continue
-            heads = [h for h in set(h for (_, h) in body.back_edges()) if rm["bb"] in body.natural_loop(h)]
+            heads = [h for h in set(h for (_, h) in body.back_edges()) if bbr in body.natural_loop(h)]
             # (a) some loop around the removal re-evaluates a 'has this job a neighbour' test (fixpoint iteration, not a single pass)
             retest = False
             for c in st.by_kind("call"):
